@@ -862,3 +862,31 @@ impl LogicalLineFileFormatter for FormatterKind {
         }
     }
 }
+
+/// Verification hooks (feature `pasfmt_verif`): direct constructors and accessors, no logic.
+#[cfg(feature = "pasfmt_verif")]
+pub mod verif_hooks_lang {
+    use super::*;
+
+    impl FormattingData {
+        pub fn verif_new(ignored: bool, nl: u16, ind: u16, cont: u16, sp: u16) -> Self {
+            FormattingData {
+                ignored,
+                newlines_before: nl,
+                indentations_before: ind,
+                continuations_before: cont,
+                spaces_before: sp,
+            }
+        }
+    }
+
+    impl<'a> FormattedTokens<'a> {
+        pub fn verif_new(tokens: &'a mut [Token<'a>], fmt: Vec<FormattingData>) -> Self {
+            FormattedTokens { tokens, fmt }
+        }
+    }
+
+    pub fn token_ws_len(token: &Token) -> u32 {
+        token.ws_len
+    }
+}
